@@ -5,14 +5,17 @@ Proved here over decision functions REGENERATED from the shim's source, for EVER
 (exactly 15 and −15), which flush values the stream calls accept, when the one-call helpers
 refuse oversized lengths, and that `mz_compressBound` is `mz_deflateBound`. Accounting
 (`next_in`/`avail_in`/`total_in` and the output triple move together, never beyond what was
-available), equality with the Rust API call by call, error codes for misuse expressible in C and
-memory accesses (buffers placed against PROT_NONE pages, a fault kills the harness and is
+available; misuse leaves the counters alone) is proved over the hand model of the stream wrappers
+(`Model.CStream`, tied by the `CCALL` correspondence: every C stream call of the run is replayed
+from the recorded `mz_stream` fields and the result of the same call on the Rust API). Equality
+with the Rust API call by call, error codes for misuse expressible in C and memory accesses (buffers placed against PROT_NONE pages, a fault kills the harness and is
 reported with the case announced just before) are checked per run.
 What no model can exhibit: reads/writes outside the caller's ranges and unwinding across the
 boundary are runtime facts about `unsafe` pointer code — exercised, not proved.
 -/
 import MinizProof.Gen.All
 import MinizProof.Lemmas.GenArith
+import MinizProof.Model.CStream
 set_option maxRecDepth 1000000
 namespace C17
 open Gen.CApi Gen.CApiOxide Gen.Lib
@@ -85,6 +88,87 @@ theorem oversize_refused (src dst : Nat) (hs : src < 2 ^ 64) (hd : dst < 2 ^ 64)
 
 theorem codes : Gen.CApi.MZ_DEFLATED = 8 ∧ Gen.CApiOxide.MZ_DEFLATED = 8 ∧ StateTypeEnum.all = [0, 1, 2] ∧
     MZError.Stream = -2 ∧ MZError.Param = -10000 ∧ MZError.Buf = -5 := by decide +kernel
+
+/-! ### Accounting of the stream wrappers (`Model.CStream`, `CCALL` correspondence) -/
+open Model.CStream in
+/-- AROUND EVERY STREAM CALL that reaches the inner Rust call, for every stream state and inner
+    result that respects the slices it was given: the input pointer advances by exactly the drop in
+    available input and the rise in total input (modulo 2^64, `wrapping_add`), likewise for output;
+    pointer + available stays where it was (nothing beyond what was available). -/
+theorem accounting_ok_path (s : CStream) (flush : Int) (inner : Inner)
+    (hk : s.kindOk = true) (hs : s.hasState = true) (hi : s.inNull = false) (ho : s.outNull = false)
+    (hf : flushOk flush = true) (hc : inner.consumed ≤ s.availIn) (hw : inner.written ≤ s.availOut) :
+    (streamCall s flush inner).2 = inner.status ∧
+    (streamCall s flush inner).1.nextIn = s.nextIn + inner.consumed ∧
+    (streamCall s flush inner).1.availIn + inner.consumed = s.availIn ∧
+    (streamCall s flush inner).1.totalIn = wrap64 (s.totalIn + inner.consumed) ∧
+    (streamCall s flush inner).1.nextOut = s.nextOut + inner.written ∧
+    (streamCall s flush inner).1.availOut + inner.written = s.availOut ∧
+    (streamCall s flush inner).1.totalOut = wrap64 (s.totalOut + inner.written) ∧
+    (streamCall s flush inner).1.nextIn + (streamCall s flush inner).1.availIn = s.nextIn + s.availIn ∧
+    (streamCall s flush inner).1.nextOut + (streamCall s flush inner).1.availOut = s.nextOut + s.availOut := by
+  unfold streamCall
+  simp only [hk, hs, hi, ho, hf, Bool.not_true, Bool.false_eq_true, ↓reduceIte, Bool.or_self]
+  and_intros <;> first | trivial | rfl | omega | (dsimp only; omega)
+
+open Model.CStream in
+/-- ON EVERY PATH (misuse included): neither pointer moves backwards, neither available count
+    grows, and pointer + available never passes the end of what was available. -/
+theorem never_beyond_available (s : CStream) (flush : Int) (inner : Inner)
+    (hc : inner.consumed ≤ s.availIn) (hw : inner.written ≤ s.availOut) :
+    s.nextIn ≤ (streamCall s flush inner).1.nextIn ∧ (streamCall s flush inner).1.availIn ≤ s.availIn ∧
+    (streamCall s flush inner).1.nextIn + (streamCall s flush inner).1.availIn ≤ s.nextIn + s.availIn ∧
+    s.nextOut ≤ (streamCall s flush inner).1.nextOut ∧ (streamCall s flush inner).1.availOut ≤ s.availOut ∧
+    (streamCall s flush inner).1.nextOut + (streamCall s flush inner).1.availOut ≤ s.nextOut + s.availOut := by
+  unfold streamCall writeBack
+  (repeat' split) <;> (dsimp only) <;> (refine ⟨?_, ?_, ?_, ?_, ?_, ?_⟩ <;> (try split) <;> omega)
+
+open Model.CStream in
+/-- MISUSE expressible in C returns an error code and moves no pointer and no total: a stream of
+    the other kind or with custom allocators (`MZ_PARAM_ERROR`, stream untouched), a missing state
+    or a NULL buffer (`MZ_STREAM_ERROR`), a flush value outside 0..4 (`MZ_PARAM_ERROR`). The only
+    field that may change is the length that goes with a NULL pointer, which is written back as 0. -/
+theorem misuse_is_an_error (s : CStream) (flush : Int) (inner : Inner)
+    (h : s.kindOk = false ∨ s.hasState = false ∨ s.inNull = true ∨ s.outNull = true ∨ flushOk flush = false) :
+    ((streamCall s flush inner).2 = MZ_PARAM_ERROR ∨ (streamCall s flush inner).2 = MZ_STREAM_ERROR) ∧
+    (streamCall s flush inner).1.nextIn = s.nextIn ∧ (streamCall s flush inner).1.nextOut = s.nextOut ∧
+    (streamCall s flush inner).1.totalIn = s.totalIn ∧ (streamCall s flush inner).1.totalOut = s.totalOut ∧
+    (s.inNull = false → (streamCall s flush inner).1.availIn = s.availIn) ∧
+    (s.outNull = false → (streamCall s flush inner).1.availOut = s.availOut) := by
+  unfold streamCall writeBack
+  by_cases h1 : s.kindOk = true
+  · by_cases h2 : s.hasState = true
+    · by_cases h3 : (s.inNull || s.outNull) = true
+      · simp only [h1, h2, h3, Bool.not_true, Bool.false_eq_true, ↓reduceIte]
+        and_intros <;> first | trivial | rfl | exact Or.inr rfl | (intro h; simp [h])
+      · by_cases h4 : flushOk flush = true
+        · simp only [Bool.or_eq_true, not_or, Bool.not_eq_true] at h3
+          rcases h with h | h | h | h | h
+          · rw [h1] at h; exact absurd h (by decide)
+          · rw [h2] at h; exact absurd h (by decide)
+          · rw [h3.1] at h; exact absurd h (by decide)
+          · rw [h3.2] at h; exact absurd h (by decide)
+          · rw [h4] at h; exact absurd h (by decide)
+        · simp only [h1, h2, h3, h4, Bool.not_true, Bool.false_eq_true, ↓reduceIte, Bool.not_false]
+          and_intros <;> first | trivial | rfl | exact Or.inl rfl | (intro h; simp [h])
+    · simp only [h1, h2, Bool.not_true, Bool.false_eq_true, ↓reduceIte, Bool.not_false]
+      and_intros <;> first | trivial | rfl | exact Or.inr rfl | (intro h; simp [h])
+  · have h1' : s.kindOk = false := by simpa using h1
+    simp only [h1', Bool.not_false, ↓reduceIte]
+    and_intros <;> first | trivial | rfl | exact Or.inl rfl | (intro _; trivial) | (intro _; rfl)
+
+open Model.CStream in
+/-- The flush values the model accepts are the ones the REGENERATED `MZFlush::new` accepts, for
+    every i32 value. -/
+theorem model_flush_is_source (f : Int) : flushOk f = true ↔ ∃ v, MZFlush_new f = G.Res.ok v := by
+  rw [flush_accepted f]
+  unfold flushOk
+  simp
+
+open Model.CStream in
+/-- The hypotheses are satisfiable. -/
+example : (streamCall ⟨1000, 10, 5, 2000, 20, 7, false, false, true, true⟩ 4 ⟨1, 10, 3⟩) =
+    (⟨1010, 0, 15, 2003, 17, 10, false, false, true, true⟩, 1) := by decide +kernel
 
 example : invalid_window_bits 15 = false := by decide +kernel
 example : invalid_window_bits (-15) = false := by decide +kernel
